@@ -152,8 +152,23 @@ func (r *RequestContext) Outputs() map[string]any {
 	return r.outputs
 }
 
+// errorWithResponseHeaders lets the error interceptor add headers to the denied response.
+type errorWithResponseHeaders struct {
+	error
+
+	headers http.Header
+}
+
+func (e *errorWithResponseHeaders) Unwrap() error                { return e.error }
+func (e *errorWithResponseHeaders) ResponseHeaders() http.Header { return e.headers }
+
 func (r *RequestContext) Finalize() (*envoy_auth.CheckResponse, error) {
 	if r.err != nil {
+		// a challenge set by an error handler belongs to the error response
+		if challenge := r.upstreamHeaders.Values("WWW-Authenticate"); len(challenge) != 0 {
+			return nil, &errorWithResponseHeaders{error: r.err, headers: http.Header{"WWW-Authenticate": challenge}}
+		}
+
 		return nil, r.err
 	}
 
